@@ -130,6 +130,40 @@ func ZZC08Order() {
 	v.Assert(c08Check(q) == want, "C08/verdict-depends-on-quoting-of-rule-name")
 }
 
+var c08Flags = []c08Rule{
+	{"nullable", "false"}, {"const", "false"}, {"optional", "false"}, {"nullable", "true"}, {"const", "true"}, {"optional", "true"},
+}
+
+// ZZC08OrderFlags: two of the boolean flags (written true or false; false ones are filtered out by the
+// compiler, which walks the rule list while deleting from it) together with any third rule of the
+// pool: the verdict is the same in all six orders.
+func ZZC08OrderFlags() {
+	node := v.Choose(0, len(c08Nodes)-1)
+	asProp := v.Choose(0, 1) == 1
+	a := v.Choose(0, len(c08Flags)-2)
+	b := v.Choose(a+1, len(c08Flags)-1)
+	v.Assume(c08Flags[a].name != c08Flags[b].name)
+	third := c08Pool[v.Choose(0, len(c08Pool)-1)]
+	v.Assume(third.name != c08Flags[a].name && third.name != c08Flags[b].name)
+	rules := []c08Rule{c08Flags[a], c08Flags[b], third}
+	base := c08Schema(node, asProp, rules, -1)
+	v.Observe("schema", base)
+	want := c08Check(base)
+	if want {
+		v.Reach("C08/accepted")
+	} else {
+		v.Reach("C08/rejected")
+	}
+	for _, p := range perms3[1:] {
+		pr := []c08Rule{rules[p[0]], rules[p[1]], rules[p[2]]}
+		sw := c08Schema(node, asProp, pr, -1)
+		if c08Check(sw) != want {
+			v.Observe("permuted", sw)
+			v.Fail("C08/verdict-depends-on-rule-order")
+		}
+	}
+}
+
 // single-rule applicability table of the statement
 func c08Applies(r c08Rule, k gen.Kind, asProp bool) bool {
 	num := k == gen.KInt || k == gen.KFloat
@@ -265,6 +299,7 @@ func ZZC08Triples() {
 func init() {
 	ZZHarnesses["ZZC08Triples"] = ZZC08Triples
 	ZZHarnesses["ZZC08Order"] = ZZC08Order
+	ZZHarnesses["ZZC08OrderFlags"] = ZZC08OrderFlags
 	ZZHarnesses["ZZC08Single"] = ZZC08Single
 	ZZHarnesses["ZZC08Pairs"] = ZZC08Pairs
 }
